@@ -35,6 +35,8 @@ def render(c, prefix, garbage_n):
     holder, obj, nest, events, reads = c["holder"], c["obj"], c["nest"], c["events"], c["reads"]
     if holder in OPAQUE and any(e in ("write", "read") for e in events):
         return None
+    if holder in ("container-hashset", "container-hash-key") and nest == "cycle":
+        return None      # hashing a cyclic value is C18's subject (it overflows the native stack)
     mk, rd, wr = OBJ[obj]
     wrap, path = NEST[nest]
     W = wrap(mk("v0"))
@@ -213,10 +215,11 @@ def run(tier, seed):
         keep_always = [c for c in scripts if "thread" in c["id"] or "gc" in c["id"]]
         rest = [c for c in scripts if c not in keep_always]
         scripts = keep_always + rnd.sample(rest, min(24, len(rest)))
-    base = vlib.replay(scripts, work, env_extra={}, jobs=12, timeout_ms=120000, name="c04-scripts-base")
+    # one process per script: scripts leave threads behind, and the sensors are process-global
+    base = vlib.replay(scripts, work, env_extra={}, jobs=12, timeout_ms=120000, name="c04-scripts-base", isolate=True)
     ok = [c for c, v in zip(scripts, base) if v["pass"]]
     verdicts = vlib.replay(ok, work, env_extra={"VERIF_USE_FREE_CHECK": "1", "VERIF_GC_EVERY": "50"}, jobs=12,
-                           timeout_ms=120000, name="c04-scripts-forced")
+                           timeout_ms=120000, name="c04-scripts-forced", isolate=True)
     # a script that merely becomes too slow under forced collection is inconclusive, not a violation
     slow = [c["id"] for c, v in zip(ok, verdicts) if v["why"] == "process hang"]
     keep = [(c, v) for c, v in zip(ok, verdicts) if v["why"] != "process hang"]
